@@ -42,16 +42,21 @@ OpCause(o) ==
 Over == c.site.kind # "none" /\ ~InBoundsW(c.site.p, c.site.len, N)
 
 First(a, b) == IF a # "" THEN a ELSE b
-RunCause == CASE api \in {"traced_buf", "traced_file", "traced_sniff"} -> cause
-              [] api \in {"parse_buf", "parse_file"} -> cb
-              [] api = "sniff" -> cs
-              \* Model::load sniffs first (a sniff that does not return preempts
-              \* everything), then decodes
-              [] OTHER -> IF cs = "skip len>=2^63" THEN cs ELSE First(cb, cs)
-CauseNow == IF RunCause # "" THEN RunCause
-            ELSE IF lv THEN "varint with >=10 continuation bytes"
-            ELSE IF c.gen = "deepnest" THEN "deep nesting"
-            ELSE ""
+\* o: the outcome of the run being judged
+RunCause(o) ==
+  CASE api \in {"traced_buf", "traced_file", "traced_sniff"} -> cause
+    [] api \in {"parse_buf", "parse_file"} -> cb
+    [] api = "sniff" -> cs
+    \* Model::load sniffs first (a sniff that does not return preempts
+    \* everything), then decodes; a panic / abort of the decode is named by
+    \* the traced decode of the same input
+    [] OTHER -> IF o = "panic" /\ cb = "read len>=2^63" THEN cb
+                ELSE IF o = "abort" /\ cb = "read len>remaining" THEN cb
+                ELSE IF cs = "skip len>=2^63" THEN cs ELSE First(cb, cs)
+CauseNow(o) == IF RunCause(o) # "" THEN RunCause(o)
+               ELSE IF lv THEN "varint with >=10 continuation bytes"
+               ELSE IF c.gen = "deepnest" THEN "deep nesting"
+               ELSE ""
 
 Sig(class, why) == [api |-> api, class |-> class, cause |-> why]
 Ctx == [case |-> [id |-> c.id, n |-> c.n, gen |-> c.gen, lenclass |-> c.lenclass, site |-> c.site],
@@ -87,7 +92,7 @@ Op == /\ e.ev = "op"
 \* Model::load runs more than the decoder (sniffing, then the graph loader,
 \* which C05 judges); its failures are attributed to the decoder only when the
 \* traced runs of the same input exhibited a decoder-level cause.
-Attributed == api # "model_load" \/ CauseNow # "" \/ Over
+Attributed == api # "model_load" \/ CauseNow(e.outcome) # "" \/ Over
 \* is_onnx_model is a heuristic with no error channel: its answer for a
 \* truncated field is not judged, only that it answers.
 JudgesOverlong == api \notin {"traced_sniff", "sniff"}
@@ -97,8 +102,8 @@ End == /\ e.ev = "end"
        /\ LET legal == LegalOutcome(e.outcome) \/ e.outcome = "oplimit" \/ ~Attributed
               linear == cnt <= OpBound(c.n)
               trunc == (Over /\ JudgesOverlong) => e.outcome # "ok"
-              b1 == Flag(nbad, legal, Sig(e.outcome, CauseNow), Ctx)
-              b2 == Flag(b1, linear, Sig("nonlinear", CauseNow), Ctx)
+              b1 == Flag(nbad, legal, Sig(e.outcome, CauseNow(e.outcome)), Ctx)
+              b2 == Flag(b1, linear, Sig("nonlinear", CauseNow(e.outcome)), Ctx)
           IN nbad' = Flag(b2, trunc, Sig("overlong field accepted", "site:" \o c.site.kind), Ctx)
        /\ st' = [st EXCEPT !.load_unattributed =
                    @ + (IF ~Attributed /\ ~LegalOutcome(e.outcome) THEN 1 ELSE 0)]
